@@ -18,7 +18,7 @@ import z3
 from pyvc.values import *
 from pyvc.values import _t
 from pyvc.engine import Contract, Loop, SeqView
-from pyvc.prop import Property, Bounded
+from pyvc.prop import Property, Bounded, Lemma
 from . import flags as FL, selected as SELM, dictmbx as D, session as SES, C04 as C04M
 from .dictmbx import MBX, Msg, F, FLAG_RECENT
 from harness.e2e_recent import bounded_recent
@@ -85,6 +85,76 @@ claim_recent = Contract(
     loops={0: _claim_loop()}, raises_only=(),
     note='no suspension between reading the stored bit and clearing it (NoYieldUnderLock, C04): one atomic segment')
 
+# ---- composition (z3): the per-function facts make "\\Recent is announced to exactly one session, never stored twice"
+#
+# Plain model: stored(u) -- the mailbox holds u with its recent bit; R(s, u) -- session s has u in its recent set;
+# A(u) -- u has been announced to some session at some time; RW(s) -- s is a read-write selection.  INV: a message is either
+# still stored recent or has been announced, never both; at most one session holds it; only read-write sessions that it was
+# announced to hold it.  The three kinds of steps are restated from the contracts proved above (delivery: BaseSession
+# append/copy/move -- stored recent exactly when no selection took it, add_recent only on a read-write selection, dict
+# append stores the bit it is given; claim: dict claim_recent; deselect: the session's flags object is dropped) and each
+# is shown to preserve INV and to announce a message only if it was never announced before.
+def _c17_syms():
+    S = z3.DeclareSort('Sess')
+    I, B = z3.IntSort(), z3.BoolSort()
+    return dict(S=S, stored=z3.Function('stored', I, B), stored2=z3.Function('stored2', I, B),
+                A=z3.Function('A', I, B), A2=z3.Function('A2', I, B), E=z3.Function('exists', I, B), E2=z3.Function('exists2', I, B),
+                R=z3.Function('R', S, I, B), R2=z3.Function('R2', S, I, B), RW=z3.Function('RW', S, B),
+                u=z3.Int('u'), s=z3.Const('s', S), t=z3.Const('t', S))
+
+
+def _c17_inv(y, stored, A, E, R):
+    u, s, t = y['u'], y['s'], y['t']
+    return z3.And(
+        z3.ForAll([u], z3.Implies(E(u), stored(u) != A(u))),
+        z3.ForAll([u], z3.Implies(z3.Not(E(u)), z3.And(z3.Not(stored(u)), z3.Not(A(u))))),
+        z3.ForAll([s, t, u], z3.Implies(z3.And(R(s, u), R(t, u)), s == t)),
+        z3.ForAll([s, u], z3.Implies(R(s, u), z3.And(A(u), y['RW'](s), z3.Not(stored(u))))))
+
+
+def _c17_once(y):
+    """a session gains a message only if it had never been announced"""
+    u, s = y['u'], y['s']
+    return z3.ForAll([s, u], z3.Implies(z3.And(y['R2'](s, u), z3.Not(y['R'](s, u))), z3.Not(y['A'](u))))
+
+
+def lemma_delivery():
+    y = _c17_syms()
+    u, s = y['u'], y['s']
+    n = z3.Int('new_uid')
+    taker = z3.Const('taker', y['S'])
+    taken = z3.Bool('taken')
+    hyp = [_c17_inv(y, y['stored'], y['A'], y['E'], y['R']), z3.Not(y['E'](n)),
+           z3.Implies(taken, y['RW'](taker)),                                  # add_recent only on a read-write selection
+           z3.ForAll([u], y['E2'](u) == z3.Or(y['E'](u), u == n)),
+           z3.ForAll([u], y['stored2'](u) == z3.If(u == n, z3.Not(taken), y['stored'](u))),   # stored recent iff nobody took it
+           z3.ForAll([u], y['A2'](u) == z3.If(u == n, taken, y['A'](u))),
+           z3.ForAll([s, u], y['R2'](s, u) == z3.Or(y['R'](s, u), z3.And(taken, s == taker, u == n)))]
+    return hyp, z3.And(_c17_inv(y, y['stored2'], y['A2'], y['E2'], y['R2']), _c17_once(y))
+
+
+def lemma_claim():
+    y = _c17_syms()
+    u, s = y['u'], y['s']
+    c = z3.Const('claimer', y['S'])
+    hyp = [_c17_inv(y, y['stored'], y['A'], y['E'], y['R']), y['RW'](c),           # select_mailbox claims only when read-write
+           z3.ForAll([u], y['E2'](u) == y['E'](u)),
+           z3.ForAll([u], z3.Not(y['stored2'](u))),                                 # no message is stored recent any more
+           z3.ForAll([u], y['A2'](u) == z3.Or(y['A'](u), y['stored'](u))),
+           z3.ForAll([s, u], y['R2'](s, u) == z3.Or(y['R'](s, u), z3.And(s == c, y['stored'](u))))]   # exactly the stored-recent ones
+    return hyp, z3.And(_c17_inv(y, y['stored2'], y['A2'], y['E2'], y['R2']), _c17_once(y))
+
+
+def lemma_deselect():
+    y = _c17_syms()
+    u, s = y['u'], y['s']
+    c = z3.Const('closing', y['S'])
+    hyp = [_c17_inv(y, y['stored'], y['A'], y['E'], y['R']),
+           z3.ForAll([u], z3.And(y['E2'](u) == y['E'](u), y['stored2'](u) == y['stored'](u), y['A2'](u) == y['A'](u))),
+           z3.ForAll([s, u], y['R2'](s, u) == z3.And(y['R'](s, u), s != c))]
+    return hyp, z3.And(_c17_inv(y, y['stored2'], y['A2'], y['E2'], y['R2']), _c17_once(y))
+
+
 _session = [c for c in SES.make('C17') if c.qualname.split('.')[-1] in (
     'append_messages', 'copy_messages', 'move_messages', 'select_mailbox')]
 
@@ -92,6 +162,9 @@ PROPERTY = Property(
     'C17', '\\Recent is announced to exactly one session and never stored',
     contracts=[FL.perm_init, FL.sess_update, FL.sess_get, FL.sess_add_recent, SELM.any_selected, D.message_copy,
                append, claim_recent] + _session, registry=REG,
+    lemmas=[Lemma('C17/lemma/delivery_keeps_recent_exactly_once', lemma_delivery),
+            Lemma('C17/lemma/claim_keeps_recent_exactly_once', lemma_claim),
+            Lemma('C17/lemma/deselect_keeps_recent_exactly_once', lemma_deselect)],
     bounded=[Bounded('delivery / select / examine / close histories (real server)',
                      'ops {SELECT, EXAMINE, CLOSE by session 0/1, APPEND, APPEND with (\\Recent \\Seen), COPY from a '
                      'selected and from an examined source with a pending-recent message, STORE +-\\Recent}: all '
